@@ -351,7 +351,9 @@ func (r *Run) explainRecovered(c *Content, im *Image, acked []int, where string)
 		for _, n := range acked {
 			if !e.Applied.has(n) {
 				ok = false
-				lacking = append(lacking, fmt.Sprintf("B%d", n))
+				if b := fmt.Sprintf("B%d", n); !strings.Contains(strings.Join(lacking, " ")+" ", b+" ") {
+					lacking = append(lacking, b)
+				}
 				break
 			}
 		}
